@@ -39,6 +39,14 @@ def run(prop, tier, seed_, replay=None):
         from . import c14
 
         return c14.run(tier, seed_)
+    if prop == "C15":
+        from . import c15
+
+        return c15.run(tier, seed_)
+    if prop == "C09":
+        from . import c09
+
+        return c09.run(tier, seed_)
     if prop == "C19":
         from . import c19
 
